@@ -1391,3 +1391,313 @@ Proof.
     intros w1 G1 T1 T01. cbv beta iota. apply IH; [exact G1 | exact T1|].
     intros r w2 G2 T2 T02 Hr. apply HQ; [exact G2 | exact T2 | congruence | exact Hr].
 Qed.
+
+Lemma GA_stepping w b : GA w -> GA (w <| stepping := b |>).
+Proof. intros ((G1 & G2 & G3 & G5 & G6) & G4). split; [repeat split; assumption | exact G4]. Qed.
+
+Lemma OPre_of_RT n w w' : OPre w -> RT n w w' -> OPre w'.
+Proof.
+  intros (_ & T & N) (G & _ & _ & _ & T0 & _ & X & _). split; [exact G|]. split; [congruence|]. unfold nf in *. rewrite T0. exact N.
+Qed.
+
+Lemma lbl_stable_K w w' : transitioning w = false -> RK w w' -> lbl_stable w w'.
+Proof.
+  intros T (G & _ & _ & L & _). destruct L as [L|[[_ L]|L]]; [right; exact L | left; exact L|].
+  destruct G as ((_ & _ & _ & G5 & _) & _). contradiction.
+Qed.
+
+Lemma sia_from_total k c w : wp (set_interrupt_action_from k c) (fun r _ => is_ok r) w.
+Proof. unfold set_interrupt_action_from, set_interrupt_action, cancel_act, set_act_fut. repeat (wp_prim || wp_case); exact I. Qed.
+
+(* step(), after the state's execute came back *)
+Lemma finish_step_spec x w (Q : result unit -> world -> Prop) :
+  OPre w -> (forall next, x = XoNext next -> legal w next) ->
+  (forall r w', OPre w' -> okf r -> Q r w') -> wp (finish_step x) Q w.
+Proof.
+  intros P Hleg HQ. unfold finish_step. wp_prim.
+  (* the finally part *)
+  assert (Hfin : forall (r : result unit) ran w2, GAr ran w2 -> transitioning w2 = false -> nf w2 -> okf r ->
+            wp (bind (modify (fun w => w <| stepping := false |>)) (fun _ => set_interrupt_action None))
+               (fun r2 s'' => match r2 with Ok _ => Q r s'' | Err e => Q (Err e) s'' end) w2).
+  { intros r ran w2 G2 T2 N2 Hr. do 2 wp_prim.
+    set (w3 := w2 <| stepping := false |>).
+    assert (G3 : GAr ran w3) by exact G2.
+    eapply wp_use; [apply wp_conj; [apply (sia_FrL None w3 (fun r w' => leq w3 w')); auto | apply (sia_fun None w3 (fun r w' => r = Ok tt /\ intr w' = None)); auto]|].
+    intros r4 w4 [L4 [-> I4]]. apply HQ; [|exact Hr].
+    split; [eapply GAr_disarmed; eauto|]. destruct L4 as (_ & _ & _ & _ & _ & X & _ & T04 & _). split; [rewrite X; exact T2|].
+    unfold nf in *. rewrite T04. exact N2. }
+  (* run the armed action or make the transition *)
+  assert (Hmid : forall next w1, OPre w1 -> legal w1 next ->
+            wp (bind get (fun w => if is_terminated w then ret tt
+                                   else match intr w with
+                                        | Some a => bind (run_action a next) (fun _ => run_armed armed_fuel (Some a))
+                                        | None => bind (transition next) (fun _ => run_armed armed_fuel None)
+                                        end))
+               (fun r s' => wp (bind (modify (fun w => w <| stepping := false |>)) (fun _ => set_interrupt_action None))
+                               (fun r2 s'' => match r2 with Ok _ => Q r s'' | Err e => Q (Err e) s'' end) s') w1).
+  { intros next w1 (G1 & T1 & N1) L1. do 2 wp_prim. destruct (is_terminated w1) eqn:Et.
+    { wp_prim. apply (Hfin (Ok tt) None); [apply GA_GAr; exact G1 | exact T1 | exact N1 | exact I]. }
+    assert (Harm : forall ran w2, GAr ran w2 -> transitioning w2 = false -> nf w2 ->
+              wp (run_armed armed_fuel ran)
+                 (fun r s' => wp (bind (modify (fun w => w <| stepping := false |>)) (fun _ => set_interrupt_action None))
+                               (fun r2 s'' => match r2 with Ok _ => Q r s'' | Err e => Q (Err e) s'' end) s') w2).
+    { intros ran w2 G2 T2 N2. apply run_armed_spec; [exact G2 | exact T2|]. intros r w3 [ran' G3] T3' T03 Hr.
+      apply (Hfin r ran'); [exact G3 | exact T3' | unfold nf in *; rewrite T03; exact N2 | exact Hr]. }
+    destruct (intr w1) as [a|] eqn:Hi.
+    - wp_prim. apply run_action_spec; [exact G1 | exact T1 | apply G1; exact Hi|]. intros w2 G2 T2 T02. cbv beta iota.
+      apply Harm; [exact G2 | exact T2 | unfold nf in *; rewrite T02; exact N1].
+    - wp_prim. destruct next as [ns|].
+      + apply transition_spec; [exact G1|]. intros r w2 R2 Hok.
+        assert (P2 : OPre w2) by (eapply OPre_of_RT; [|exact R2]; split; [exact G1 | split; assumption]).
+        destruct L1 as [L1|[L1 L1']]; [congruence|]. destruct (Hok (conj T1 (conj L1 L1'))) as [Hr _].
+        destruct r; [|destruct Hr]. cbv beta iota. apply Harm; [apply GA_GAr; apply P2 | apply P2 | apply P2].
+      + unfold transition, transition_to. do 2 wp_prim. rewrite T1. wp_prim. cbv beta iota.
+        apply Harm; [apply GA_GAr; exact G1 | exact T1 | exact N1]. }
+  wp_prim. destruct x as [next| |iid|e].
+  - wp_prim. cbv beta iota. apply Hmid; [exact P | apply Hleg; reflexivity].
+  - wp_prim. cbv beta iota. apply Hmid; [exact P | exact I].
+  - do 3 wp_prim. cbv zeta.
+    match goal with |- wp (if ?k then _ else _) _ _ => destruct k end.
+    + do 2 wp_prim. apply Hmid; [exact P | exact I].
+    + destruct (find (fun ac => Nat.eqb (a_cookie ac) iid) (acts w)).
+      * wp_prim. eapply wp_use; [apply wp_conj; [apply (sia_from_XT None (a_kind a) iid w (fun r w1 => RK w w1)); [apply P | auto] | apply sia_from_total]|].
+        intros r w1 [R1 Hr]. pose proof (OPre_of_RT _ _ _ P R1) as P1. destruct r; [|destruct Hr]. cbv beta iota.
+        do 2 wp_prim. apply Hmid; [exact P1 | exact I].
+      * do 2 wp_prim. apply Hmid; [exact P | exact I].
+  - wp_prim. apply (sia_X None None); [apply P | intros a X; discriminate|]. intros w1 R1 _. cbv beta iota.
+    pose proof (OPre_of_RT _ _ _ P R1) as P1. wp_prim. cbv beta iota.
+    apply Hmid; [exact P1 | apply legal_always; [apply GA_lbl; apply P1 | right; left; reflexivity]].
+Qed.
+
+(* ------------------------------------------------------------------ the stepping loop *)
+Definition LPost (r : result unit) (w' : world) : Prop := OPre w' /\ okf r /\ (is_ok r -> T3 w').
+
+Lemma step_body_spec (rest : LM unit) w (Q : result unit -> world -> Prop) :
+  OPre w ->
+  (forall w1 (Q1 : result unit -> world -> Prop), OPre w1 -> (forall r w', LPost r w' -> Q1 r w') -> wp rest Q1 w1) ->
+  (forall r w', LPost r w' -> Q r w') ->
+  wp (bind (modify (fun w => w <| stepping := true |>))
+           (fun _ => bind execute_state (fun x => match x with XoSuspended => ret tt | _ => bind (finish_step x) (fun _ => rest) end))) Q w.
+Proof.
+  intros (G & T & N) Hrest HQ. do 2 wp_prim.
+  match goal with |- wp _ _ ?w1 => assert (P1 : OPre w1) by (split; [apply GA_stepping; exact G | split; assumption]) end.
+  wp_prim. apply execute_state_spec; [exact P1|]. intros x w2 R2 X2. cbv beta iota.
+  pose proof (RO_pre _ _ R2) as P2.
+  assert (Hfs : wp (bind (finish_step x) (fun _ => rest)) Q w2).
+  { wp_prim. apply finish_step_spec; [exact P2 | intros next ->; exact X2|]. intros r w3 P3 Hr. destruct r; cbv beta iota.
+    - apply Hrest; [exact P3 | exact HQ].
+    - apply HQ. split; [exact P3|]. split; [exact Hr | intros []]. }
+  destruct x; try exact Hfs. wp_prim. apply HQ. split; [exact P2|]. split; [exact I | intros _; exact X2].
+Qed.
+
+Lemma GA_t0 w p : GA w -> GA (w <| t0 := p |>).
+Proof. intros ((G1 & G2 & G3 & G5 & G6) & G4). split; [repeat split; assumption | exact G4]. Qed.
+
+Lemma set_t0_L p w (Q : result unit -> world -> Prop) :
+  OPre w -> okpc p -> (match p with PcInStep _ _ _ => False | _ => True end) ->
+  (forall r w', LPost r w' -> Q r w') -> wp (set_t0 p) Q w.
+Proof.
+  intros (G & T & N) Hp Hn HQ. unfold set_t0. wp_prim. apply HQ.
+  split; [split; [apply GA_t0; exact G | split; [exact T | exact Hp]]|]. split; [exact I|]. intros _.
+  unfold T3. cbn. destruct p; try exact I. contradiction.
+Qed.
+
+Lemma loop_head_spec fuel : forall w (Q : result unit -> world -> Prop),
+  OPre w -> (forall r w', LPost r w' -> Q r w') -> wp (loop_head fuel) Q w.
+Proof.
+  induction fuel as [|f IH]; intros w Q P HQ; cbn [loop_head].
+  - wp_prim. apply HQ. split; [exact P|]. split; [reflexivity | intros []].
+  - do 2 wp_prim. destruct (is_terminated w) eqn:Et; [apply set_t0_L; [exact P | exact I | exact I | exact HQ]|].
+    destruct (closed w) eqn:Ec.
+    { exfalso. destruct P as (((_ & G2 & _) & _) & _). rewrite (G2 Ec) in Et. discriminate. }
+    destruct (paused w); [apply set_t0_L; [exact P | exact I | exact I | exact HQ]|].
+    apply step_body_spec; [exact P | | exact HQ]. intros w1 Q1 P1 HQ1. apply IH; assumption.
+Qed.
+
+Definition Top (w : world) : Prop := OPre w /\ T3 w.
+
+Lemma resume_t0_spec wk w (Q : result unit -> world -> Prop) :
+  Top w -> (forall r w', LPost r w' -> Q r w') -> wp (resume_t0 wk) Q w.
+Proof.
+  intros [P H3] HQ. unfold resume_t0. do 2 wp_prim.
+  assert (Hloop : forall w1 (Q1 : result unit -> world -> Prop), OPre w1 -> (forall r w', LPost r w' -> Q1 r w') -> wp (loop_head chain_fuel) Q1 w1)
+    by (intros; apply loop_head_spec; assumption).
+  assert (Htail : forall (x : exec_out) w2, OPre w2 -> xo_ok x w2 ->
+             wp (match x with XoSuspended => ret tt | _ => bind (finish_step x) (fun _ => loop_head chain_fuel) end) Q w2).
+  { intros x w2 P2 X2.
+    assert (Hfs : wp (bind (finish_step x) (fun _ => loop_head chain_fuel)) Q w2).
+    { wp_prim. apply finish_step_spec; [exact P2 | intros next ->; exact X2|]. intros r w3 P3 Hr. destruct r; cbv beta iota.
+      - apply Hloop; [exact P3 | exact HQ].
+      - apply HQ. split; [exact P3|]. split; [exact Hr | intros []]. }
+    destruct x; try exact Hfs. wp_prim. apply HQ. split; [exact P2|]. split; [exact I | intros _; exact X2]. }
+  destruct (t0 w) eqn:Et.
+  - apply Hloop; assumption.
+  - assert (Hb : wp (bind (modify (fun w => w <| stepping := true |>))
+                       (fun _ => bind execute_state (fun x => match x with XoSuspended => ret tt | _ => bind (finish_step x) (fun _ => loop_head chain_fuel) end))) Q w).
+    { apply step_body_spec; [exact P | exact Hloop | exact HQ]. }
+    destruct (paused w); [destruct (is_terminated w); [exact Hb|] | exact Hb].
+    apply set_t0_L; [exact P | exact I | exact I | exact HQ].
+  - assert (Hr : run_or_term w) by (unfold T3 in H3; rewrite Et in H3; exact H3).
+    wp_prim.
+    assert (Ho : Oat (match wk with WkExn e => ret (SoRaised e) | _ => run_actions rest r end) w).
+    { destruct wk; first [apply run_actions_O | apply Oat_ret]. }
+    apply Ho; [exact P|]. intros o w1 R1. cbv beta iota.
+    wp_prim. apply after_run_fn_spec; [eapply RO_pre; eauto | eapply run_or_term_stable; [apply R1 | exact Hr]|].
+    intros x w2 R2 X2. cbv beta iota. apply Htail; [eapply RO_pre; eauto | exact X2].
+  - do 3 wp_prim.
+    assert (Hw : forall fn, wp (after_waiting fn wid wk) (fun rx w2 => match rx with
+                    | Ok x => wp (bind (finish_step x) (fun _ => loop_head chain_fuel)) Q w2 | Err e => Q (Err e) w2 end) w).
+    { intro fn. apply after_waiting_spec; [apply GA_lbl; apply P|]. intros x w2 E2 X2.
+      pose proof (RO_pre _ _ (oeq_RO _ _ P E2)) as P2.
+      wp_prim. apply finish_step_spec; [exact P2 | intros next ->; exact X2|]. intros r w3 P3 Hr. destruct r; cbv beta iota.
+      - apply Hloop; [exact P3 | exact HQ].
+      - apply HQ. split; [exact P3|]. split; [exact Hr | intros []]. }
+    destruct (st w) as [[]|]; apply Hw.
+  - wp_prim. apply HQ. split; [exact P|]. split; [exact I | intros _; exact H3].
+  - wp_prim. apply HQ. split; [exact P|]. split; [exact I | intros _; exact H3].
+Qed.
+
+(* ------------------------------------------------------------------ one loop callback, the environment *)
+Lemma Top_K w w' : Top w -> RK w w' -> Top w'.
+Proof.
+  intros [P H3] R. pose proof (RK_RO _ _ P R) as O. split; [eapply RO_pre; eauto|].
+  destruct R as (_ & _ & _ & _ & T0 & _). unfold T3 in *. rewrite T0. destruct (t0 w); try exact I.
+  eapply run_or_term_stable; [apply O | exact H3].
+Qed.
+
+Lemma Top_eeq w w' : Top w -> eeq w w' -> Top w'.
+Proof. intros H E. eapply Top_K; [exact H|]. apply eeq_RT; [apply H | exact E]. Qed.
+
+Lemma emit_Top e w (Q : result unit -> world -> Prop) :
+  Top w -> ev_ok e = true -> (forall w', Top w' -> Q (Ok tt) w') -> wp (emit e) Q w.
+Proof. intros H He HQ. apply emit_FrXT; [exact He|]. intros [] w' E. apply HQ. eapply Top_eeq; eauto. Qed.
+
+Lemma ctl_call_Top c w (Q : result cret -> world -> Prop) :
+  Top w -> (forall r w', Top w' -> (must_return c = true -> is_ok r) -> Q r w') -> wp (ctl_call c) Q w.
+Proof.
+  intros H HQ. apply ctl_call_spec; [apply H|]. intros r w' R T. apply HQ; [eapply Top_K; eauto|]. apply T. apply H.
+Qed.
+
+Lemma run_entry_spec r w (Q : result unit -> world -> Prop) :
+  Top w -> (forall w', Top w' -> Q (Ok tt) w') -> wp (run_entry r) Q w.
+Proof.
+  intros H HQ. destruct r as [wk|cb|]; cbn [run_entry].
+  - do 2 wp_prim. apply resume_t0_spec; [exact H|]. intros r w1 (P1 & Hr & H3). destruct r as [u|e]; cbv beta iota.
+    + wp_prim. apply HQ. split; [exact P1 | apply H3; exact I].
+    + cbn in Hr. subst e. unfold set_t0, emit. do 3 wp_prim. apply HQ.
+      destruct P1 as (G1 & T1 & N1). destruct G1 as ((A1 & A2 & A3 & A5 & A6) & A4).
+      split; [split; [split; [repeat split; try assumption|exact A4] | split; [exact T1 | reflexivity]] | exact I].
+      apply errs_ok_snoc; [exact A6 | reflexivity].
+  - wp_prim. apply emit_Top; [exact H | reflexivity|]. intros w1 H1. cbv beta iota. do 4 wp_prim.
+    assert (Hbody : wp (match nth_error (cf_callbacks (cfg w1)) cb with
+                        | Some CbOk | None => ret tt
+                        | Some (CbRaise e) => raise e
+                        | Some (CbCtl c) => bind (ctl_observed c) (fun r => emit (EvCtl c r))
+                        end) (fun r w2 => Top w2 /\ (is_err r -> cur_label w2 = cur_label w1)) w1).
+    { destruct (nth_error (cf_callbacks (cfg w1)) cb) as [[]|]; try (wp_prim; split; [exact H1 | reflexivity]).
+      wp_prim. apply ctl_observed_spec; [apply H1|]. intros x w2 R2. cbv beta iota.
+      apply emit_Top; [eapply Top_K; eauto | reflexivity|]. intros w3 H3'. split; [exact H3' | intros []]. }
+    eapply wp_use; [exact Hbody|]. intros r2 w2 [H2 _]. cbv beta iota. destruct r2 as [u|e]; cbv beta iota; [wp_prim; apply HQ; exact H2|].
+    do 2 wp_prim.
+    assert (Hfail : wp (bind (attempt (ctl_call (CFail e))) (fun y => match y with Ok _ => ret tt | Err e' => emit (EvLoopError e') end)) Q w2).
+    { do 2 wp_prim. apply ctl_call_Top; [exact H2|]. intros r3 w3 H3' Hr. destruct r3; [|destruct (Hr eq_refl)]. cbv beta iota. wp_prim. apply HQ. exact H3'. }
+    destruct (st w2) as [[]|]; try exact Hfail. wp_prim. apply HQ. exact H2.
+  - do 2 wp_prim. destruct (orig_fut_cancelled w); [|wp_prim; apply HQ; exact H].
+    do 2 wp_prim. apply ctl_call_Top; [exact H|]. intros r3 w3 H3' Hr. destruct r3; [|destruct (Hr eq_refl)]. cbv beta iota. wp_prim. apply HQ. exact H3'.
+Qed.
+
+Lemma tick_spec w (Q : result unit -> world -> Prop) :
+  Top w -> (forall w', Top w' -> Q (Ok tt) w') -> wp tick Q w.
+Proof.
+  intros H HQ. unfold tick. do 2 wp_prim. destruct (ready w) as [|r rest]; [wp_prim; apply HQ; exact H|].
+  do 2 wp_prim. apply run_entry_spec; [|exact HQ]. eapply Top_eeq; [exact H|]. repeat split; auto.
+Qed.
+
+Lemma drain_spec n : forall w (Q : result unit -> world -> Prop),
+  Top w -> (forall w', Top w' -> Q (Ok tt) w') -> wp (drain n) Q w.
+Proof.
+  induction n as [|n IH]; intros w Q H HQ; cbn [drain]; [wp_prim; apply HQ; exact H|].
+  do 2 wp_prim. destruct (ready w) eqn:Er; [wp_prim; apply HQ; exact H|].
+  wp_prim. apply tick_spec; [exact H|]. intros w1 H1. cbv beta iota. apply IH; assumption.
+Qed.
+
+Lemma env_step_m_spec e w (Q : result unit -> world -> Prop) :
+  Top w -> e <> ECancelFuture -> (forall w', Top w' -> Q (Ok tt) w') -> wp (env_step_m e) Q w.
+Proof.
+  intros H Hne HQ. destruct e; cbn [env_step_m].
+  - apply tick_spec; assumption.
+  - wp_prim. apply ctl_observed_spec; [apply H|]. intros x w1 R1. cbv beta iota.
+    apply emit_Top; [eapply Top_K; eauto | reflexivity | exact HQ].
+  - contradiction.
+  - apply schedule_FrXT. intros [] w1 E1. apply HQ. eapply Top_eeq; eauto.
+  - do 2 wp_prim. destruct (find (fun kw => Nat.eqb (fst kw) k) (exts w)); [wp_prim; apply HQ; exact H|].
+    do 2 wp_prim.
+    match goal with |- wp _ _ ?wx => assert (H1 : Top wx) by (eapply Top_eeq; [exact H | repeat split; auto]) end.
+    destruct (t0 w); try (wp_prim; apply HQ; exact H1). destruct await_ext; [|wp_prim; apply HQ; exact H1].
+    apply wp_when_i; intro; [|apply HQ; exact H1]. apply schedule_FrXT. intros [] w2 E2. apply HQ. eapply Top_eeq; eauto.
+  - apply drain_spec; assumption.
+Qed.
+
+Lemma env_step_Top w e : Top w -> e <> ECancelFuture -> Top (env_step w e).
+Proof.
+  intros H Hne. unfold env_step. apply (wp_run (env_step_m e) (fun _ w' => Top w') w).
+  apply env_step_m_spec; [exact H | exact Hne | auto].
+Qed.
+
+Lemma run_from_Top es : forall w, Top w -> ~ In ECancelFuture es -> Top (run_from w es).
+Proof.
+  induction es as [|e es IH]; intros w H Hn; cbn; [exact H|].
+  apply IH; [apply env_step_Top; [exact H | intro X; apply Hn; left; exact X] | intro X; apply Hn; right; exact X].
+Qed.
+
+(* ------------------------------------------------------------------ construction, every run *)
+Lemma Top_created c oc tr :
+  errs_ok tr ->
+  Top (mk_world c (Some SCreated) false None None None [] 0 None None None PfPending true false false [0] true false false
+           [] (cf_ospec c) PcNotStarted [RWakeT0 WkNone] [] oc tr None []).
+Proof.
+  intro He. split; [split; [split; [repeat split|]|split]|]; cbn; try reflexivity; try discriminate; try exact I; try exact He.
+Qed.
+
+Lemma constructed_Top c u w : construct_process c = (Ok u, w) -> Top w.
+Proof.
+  intro Hc. destruct c as [prog cbs ls fault osp]. unfold construct_process in Hc.
+  unfold transition in Hc. revert Hc. generalize (do_ctl reent_fuel). intros rec Hc.
+  destruct fault as [[[h k] e]|].
+  - vm_compute in Hc.
+    match type of Hc with context [match ?b with true => _ | false => _ end] => destruct b end; [discriminate Hc|].
+    injection Hc as _ <-. apply Top_created. reflexivity.
+  - vm_compute in Hc. injection Hc as _ <-. apply Top_created. reflexivity.
+Qed.
+
+Theorem run_Top c es w : run c es = Some w -> ~ In ECancelFuture es -> Top w.
+Proof.
+  intros Hr Hn. unfold run in Hr. destruct (construct_process c) as [[u|e] w0] eqn:Hc; [|discriminate].
+  injection Hr as <-. apply run_from_Top; [eapply constructed_Top; eauto | exact Hn].
+Qed.
+
+Lemma errs_ok_In tr e : errs_ok tr -> In (EvLoopError e) tr -> e = EOutOfFuel.
+Proof.
+  unfold errs_ok. intros H Hi. rewrite forallb_forall in H. specialize (H _ Hi). cbn in H. destruct e; try discriminate H. reflexivity.
+Qed.
+
+(* C03 / C02, every run, any injected fault: nothing reaches the event loop and the stepping task never fails *)
+Theorem nothing_escapes c es w e :
+  run c es = Some w -> ~ In ECancelFuture es ->
+  (In (EvLoopError e) (trace w) \/ t0 w = PcFailed e) -> e = EOutOfFuel.
+Proof.
+  intros Hr Hn H. destruct (run_Top _ _ _ Hr Hn) as [(G & _ & N) _]. destruct H as [H|H].
+  - eapply errs_ok_In; [apply G | exact H].
+  - unfold nf in N. rewrite H in N. exact N.
+Qed.
+
+(* never half-transitioned: between environment events no transition is under way and the failure bypass is not armed;
+   an armed interrupt action is pending; a closed process has terminated; the future of a live process is pending *)
+Theorem never_half_transitioned c es w :
+  run c es = Some w -> ~ In ECancelFuture es ->
+  transitioning w = false /\ transition_failing w = false /\ (closed w = true -> is_terminated w = true)
+  /\ (is_terminated w = false -> pfut w = PfPending) /\ (forall a, intr w = Some a -> pend w a).
+Proof.
+  intros Hr Hn. destruct (run_Top _ _ _ Hr Hn) as [(((G1 & G2 & G3 & _) & G4) & T & _) _].
+  split; [exact T|]. split; [apply G4; exact T|]. split; [exact G2|]. split; [exact G1 | exact G3].
+Qed.
